@@ -669,9 +669,21 @@ func (b *BMC) dispatch(rx *Rx, m *Msg) (byte, []byte) {
 		return 0xCB, nil
 	case m.NetFn == 0x2c && len(d) >= 1 && d[0] == 0xDC:
 		return b.dcmi(rx, m, d)
+	case m.NetFn == 0x2c && len(d) >= 1:
+		// another defining body: not implemented here; the body code is echoed
+		rx.Name = fmt.Sprintf("Group extension body %#02x cmd %#02x", d[0], m.Cmd)
+		return 0xC1, d[:1]
 	case m.NetFn == 0x2c:
 		rx.Name = "Group extension"
-		rx.problem("group-extension request without a DCMI body code: % x", d)
+		rx.problem("group-extension request without a body code")
+		return 0xC1, nil
+	case m.NetFn == 0x2e && len(d) >= 3:
+		// OEM/group request: the enterprise number is echoed
+		rx.Name = fmt.Sprintf("OEM enterprise %#x cmd %#02x", uint32(d[0])|uint32(d[1])<<8|uint32(d[2])<<16, m.Cmd)
+		return 0xC1, d[:3]
+	case m.NetFn == 0x2e:
+		rx.Name = "OEM"
+		rx.problem("OEM request without an enterprise number")
 		return 0xC1, nil
 	}
 	rx.Name = fmt.Sprintf("NetFn %#02x cmd %#02x", m.NetFn, m.Cmd)
